@@ -43,6 +43,19 @@ def show(v):
     return v
 
 
+def grind_short_x(rng, curve: bytes) -> bytes:
+    """A secret exponent of secp256k1 / P-256 whose public X coordinate has a leading zero byte (X < 2^248, about 1 key in 256),
+    found with `cryptography` directly (not through pytezos); nothing cached across runs."""
+    from cryptography.hazmat.primitives.asymmetric import ec
+    crv = ec.SECP256K1() if curve == b'sp' else ec.SECP256R1()
+    order = ck.SECP_N if curve == b'sp' else ck.P256_N
+    for _ in range(20000):
+        d = rng.randrange(1, order)
+        if ec.derive_private_key(d, crv).public_key().public_numbers().x < (1 << 248):
+            return d.to_bytes(32, 'big')
+    return ck.rand_secret(rng, curve)
+
+
 # ------------------------------------------------------------------------------------------------
 # (A) runners
 # ------------------------------------------------------------------------------------------------
@@ -311,6 +324,12 @@ def run(ctx: lib.Ctx) -> None:
         c = curve.decode()
         for ki in range(per_curve[curve]):
             secret = ck.rand_secret(rng, curve)
+            if curve in (b'sp', b'p2') and ki == 0:
+                try:
+                    secret = grind_short_x(rng, curve)      # rare shape: public X with a leading zero byte
+                    ctx.dist[f'short-public-x:{curve.decode()}'] += 1
+                except ImportError:
+                    pass
             if curve == b'ed' and ki % 3 == 1:      # a well-formed 64-byte libsodium secret key
                 import pysodium
                 secret = pysodium.crypto_sign_seed_keypair(secret)[1]
